@@ -350,7 +350,10 @@ def check_overrides(ctx):
                 ctx.bad("C18.4", meth, meth.node, f"`{name}` does not delegate to super().{name}({', '.join(meth.params[1:])}) exactly once", construct=f"{name}: delegation")
             else:
                 rets = [x for x in walk_scope(meth.node) if isinstance(x, ast.Return)]
-                if name == "get_code" and not any(x.value is sup[0] for x in rets):
+                # ... possibly through a local bound to it once (`code = super().get_code(..)` inside the with-block, `return code` after it)
+                via = {st.targets[0].id for st in walk_scope(meth.node) if isinstance(st, ast.Assign) and st.value is sup[0] and len(st.targets) == 1 and isinstance(st.targets[0], ast.Name)}
+                via = {v_ for v_ in via if sum(1 for st in walk_scope(meth.node) if isinstance(st, ast.Assign) and any(isinstance(t_, ast.Name) and t_.id == v_ for t_ in st.targets)) == 1}
+                if name == "get_code" and not any(x.value is sup[0] or (isinstance(x.value, ast.Name) and x.value.id in via) for x in rets):
                     ctx.bad("C18.4", meth, meth.node, "get_code does not return super().get_code(...)", construct="get_code: return")
                 else:
                     ctx.ok("C18.4", meth.qualname, f"delegates to super().{name} with its own arguments")
